@@ -142,6 +142,16 @@ pub fn replay_any(spec: &ShardSpec, hist: &[String], quiet: bool) -> i32 {
 
 const HS4: [u8; 4] = [H_GOOD, H_LOW, H_CONST, H_TAG];
 
+/// E7 scale sweep shard.
+fn sweep(prop: &str, ty: &str, hk: u8, n: usize, flags: &[&str], extra: &[(&str, &str)], profile: &str, secs: f64) -> ShardSpec {
+    let mut x = e1(prop, ty, hk, 0, "", flags, n, 0, 0, profile, secs);
+    x.engine = "e7".into();
+    for (k, v) in extra {
+        x.extra.insert(k.to_string(), v.to_string());
+    }
+    x
+}
+
 fn as_set(mut x: ShardSpec) -> ShardSpec {
     x.world = "set".into();
     x
@@ -185,7 +195,9 @@ pub fn plan(prop: &str, tier: &str) -> Option<Plan> {
                 s.push(e2(prop, "tk", H_GOOD, "look1+mut+ch0+shape2", &[], 3, "chk", 40.0));
                 s.push(e2(prop, "zst", H_GOOD, "look+mut+ch1+bulk2+shape2", &[], 1, "chk", 40.0));
                 s.push(e2(prop, "u32", H_CONST, "look1+mut+ch0+shape2", &[], 3, "chk", 40.0));
-                bounds = json!({"E1": "d<=1 at N=64 (u32, 4 hashers, every concrete key) and N=130 (cap0=29); d<=2 at N=31 (class keys in layer 2)", "E2": "fixpoint over u=4 keys (HGood,HLow), u=3 (HConst, Tk), u=1 (ZST)"});
+                s.push(sweep(prop, "u32", H_GOOD, 100_000, &["cheap"], &[("stride", "3"), ("audit_every", "10000"), ("mix", "1")], "chk", 40.0));
+                s.push(sweep(prop, "u32", H_TAG, 30_000, &["cheap"], &[("stride", "8"), ("audit_every", "5000"), ("mix", "1")], "chk", 40.0));
+                bounds = json!({"E7": "growth path to 10^5 elements with a mixed call menu (entry / raw entry / get_mut / remove_entry on keys of either table, tombstones) against the reference, full audit every 10^4 steps", "E1": "d<=1 at N=64 (u32, 4 hashers, every concrete key) and N=130 (cap0=29); d<=2 at N=31 (class keys in layer 2)", "E2": "fixpoint over u=4 keys (HGood,HLow), u=3 (HConst, Tk), u=1 (ZST)"});
             } else {
                 for &hk in &HS4 {
                     for &c in &[0usize, 1, 4, 29] {
@@ -207,7 +219,11 @@ pub fn plan(prop: &str, tier: &str) -> Option<Plan> {
                 }
                 s.push(e2(prop, "zst", H_GOOD, "look+mut+ch1+bulk2+shape2", &[], 1, "chk", 600.0));
                 s.push(e2(prop, "u32", H_GOOD, "look+mut+ch1+bulk2+shape2", &[], 3, "chk", 900.0));
-                bounds = json!({"E1": "d<=1 at N=130 (4 hashers x initial capacities {0,1,4,29,200} x {u32,Tk}); d<=2 at N=64; d<=3 at N=31", "E2": "fixpoint over u=6 (HGood,HLow) / u=5 (HConst,HTag) keys; full alphabet at u=3; ZST"});
+                for &hk in &HS4 {
+                    s.push(sweep(prop, "u32", hk, if hk == H_CONST { 3_000 } else { 1_000_000 }, &["cheap"], &[("stride", "3"), ("audit_every", "50000"), ("mix", "1")], "chk", 600.0));
+                }
+                s.push(sweep(prop, "tk", H_GOOD, 200_000, &["cheap"], &[("stride", "8"), ("audit_every", "20000"), ("mix", "1")], "chk", 600.0));
+                bounds = json!({"E7": "growth path to 10^6 elements (u32; 2*10^5 Tk) with a mixed call menu against the reference", "E1": "d<=1 at N=130 (4 hashers x initial capacities {0,1,4,29,200} x {u32,Tk}); d<=2 at N=64; d<=3 at N=31", "E2": "fixpoint over u=6 (HGood,HLow) / u=5 (HConst,HTag) keys; full alphabet at u=3; ZST"});
             }
         }
         "C02" => {
@@ -304,7 +320,9 @@ pub fn plan(prop: &str, tier: &str) -> Option<Plan> {
                 s.push(e2(prop, "u32", H_GOOD, "mut1+ch0+shape2+fill", &fl, 4, "chk", 40.0));
                 s.push(e2(prop, "u32", H_LOW, "mut1+ch0+shape2+fill", &fl, 4, "chk", 40.0));
                 s.push(e2(prop, "zst", H_GOOD, "mut+ch1+bulk2+shape2+fill", &fl, 1, "chk", 40.0));
-                bounds = json!({"E1": "d<=2 at N=40 (4 hashers); d<=1 at N=130 (every key) and at every n<=600 with the boundary menu", "E2": "fixpoint u=4 with the head-room probe at every state"});
+                s.push(sweep(prop, "u32", H_GOOD, 200_000, &["c03", "c10", "cheap"], &[("stride", "0"), ("fill", "1"), ("audit_every", "50000")], "chk", 40.0));
+                s.push(sweep(prop, "u32", H_LOW, 20_000, &["c03", "c10", "cheap"], &[("stride", "3"), ("fill", "1"), ("mix", "1"), ("audit_every", "5000")], "chk", 40.0));
+                bounds = json!({"E7": "head-room probe shortly after every resize start on the growth path to 2*10^5 elements (with tombstones to 2*10^4)", "E1": "d<=2 at N=40 (4 hashers); d<=1 at N=130 (every key) and at every n<=600 with the boundary menu", "E2": "fixpoint u=4 with the head-room probe at every state"});
             } else {
                 for &hk in &HS4 {
                     s.push(e1(prop, "u32", hk, 0, a, &fl, 64, 2, 1, "chk", 900.0));
@@ -318,7 +336,10 @@ pub fn plan(prop: &str, tier: &str) -> Option<Plan> {
                 }
                 s.push(e2(prop, "u32", H_CONST, "mut1+ch0+shape2+fill", &fl, 5, "chk", 900.0));
                 s.push(e2(prop, "zst", H_GOOD, "mut+ch1+bulk2+shape2+fill", &fl, 1, "chk", 100.0));
-                bounds = json!({"E1": "d<=2 at N=64 (4 hashers); d<=3 at N=31; d<=1 at every n<=4096 with the boundary menu", "E2": "fixpoint u=6 / u=5 with the head-room probe at every state"});
+                for st in ["0", "2", "3", "8"] {
+                    s.push(sweep(prop, "u32", H_GOOD, 3_000_000, &["c03", "c10", "cheap"], &[("stride", st), ("fill", "1"), ("mix", "1"), ("audit_every", "200000")], "chk", 600.0));
+                }
+                bounds = json!({"E7": "head-room probe shortly after every resize start on the growth path to 3*10^6 elements, tombstone strides {none,2,3,8}", "E1": "d<=2 at N=64 (4 hashers); d<=3 at N=31; d<=1 at every n<=4096 with the boundary menu", "E2": "fixpoint u=6 / u=5 with the head-room probe at every state"});
             }
         }
         "C05" => {
